@@ -158,7 +158,136 @@ func guardedByField(b *ssa.BasicBlock, field string, ops ...token.Token) (bool, 
 			}
 		}
 	}
+	// done / has folded into one state field (state == whileFetch): being in one state rules the others out
+	if er := stateEnumOf(b.Parent()); er != nil && (field == "done" || field == "has") {
+		k := er.done
+		if field == "has" {
+			k = er.has
+		}
+		for _, g := range guardsOf(b) {
+			cf, ok := g.asCmp()
+			if !ok || k == nil || !er.isField(cf.x) {
+				continue
+			}
+			kc, isK := cf.y.(*ssa.Const)
+			if !isK || kc.Value == nil {
+				continue
+			}
+			same := constant.Compare(kc.Value, token.EQL, k)
+			for _, op := range ops {
+				if op == token.NOT && ((cf.op == token.EQL && !same) || (cf.op == token.NEQ && same)) {
+					return true, path(cf.x) + cf.op.String() + kc.Value.String()
+				}
+				if op == token.LAND && cf.op == token.EQL && same {
+					return true, path(cf.x) + cf.op.String() + kc.Value.String()
+				}
+			}
+		}
+	}
 	return false, ""
+}
+
+// stateEnum: the two flags of a While wrapper (done: the end was reported; has: an item is parked) kept as states of one field
+// of a named integer type. done is the state the entry test of Next answers with an immediate return; has is the state stored
+// after a successful pull.
+type stateEnum struct {
+	recv      *ssa.Parameter
+	field     string
+	done, has constant.Value
+}
+
+func (e *stateEnum) isField(v ssa.Value) bool {
+	ld, ok := v.(*ssa.UnOp)
+	if !ok || ld.Op != token.MUL {
+		return false
+	}
+	fa, ok := ld.X.(*ssa.FieldAddr)
+	return ok && fa.X == ssa.Value(e.recv) && fieldName(fa.X.Type(), fa.Field) == e.field
+}
+
+var stateEnumMemo = map[*ssa.Function]*stateEnum{}
+
+func stateEnumOf(fn *ssa.Function) *stateEnum {
+	if e, ok := stateEnumMemo[fn]; ok {
+		return e
+	}
+	stateEnumMemo[fn] = nil
+	if fn == nil || len(fn.Blocks) == 0 || len(fn.Params) == 0 || fn.Signature.Recv() == nil {
+		return nil
+	}
+	b0 := fn.Blocks[0]
+	iff, ok := b0.Instrs[len(b0.Instrs)-1].(*ssa.If)
+	if !ok {
+		return nil
+	}
+	cf, ok := (guard{cond: iff.Cond, val: true}).asCmp()
+	if !ok || cf.op != token.EQL {
+		return nil
+	}
+	ld, ok := cf.x.(*ssa.UnOp)
+	kc, isK := cf.y.(*ssa.Const)
+	if !ok || ld.Op != token.MUL || !isK || kc.Value == nil {
+		return nil
+	}
+	fa, ok := ld.X.(*ssa.FieldAddr)
+	if !ok || fa.X != ssa.Value(fn.Params[0]) {
+		return nil
+	}
+	nt, isN := ld.Type().(*types.Named)
+	if !isN || !isIntType(nt.Underlying()) {
+		return nil
+	}
+	// the true branch answers at once: it returns without pulling
+	tb := b0.Succs[0]
+	if _, isRet := tb.Instrs[len(tb.Instrs)-1].(*ssa.Return); !isRet {
+		return nil
+	}
+	for _, in := range tb.Instrs {
+		if call, isCall := in.(*ssa.Call); isCall && call.Call.IsInvoke() {
+			return nil
+		}
+	}
+	e := &stateEnum{recv: fn.Params[0], field: fieldName(fa.X.Type(), fa.Field), done: kc.Value}
+	// has: the state stored where a pull has succeeded
+	for _, p := range append(pullsOn(fn, "", "Next"), pullsOn(fn, "", "Peek")...) {
+		_, perr := fallibleCall(p)
+		instrs(fn, func(b *ssa.BasicBlock, _ int, in ssa.Instruction) {
+			st, ok := in.(*ssa.Store)
+			if !ok || e.has != nil {
+				return
+			}
+			fa2, ok := st.Addr.(*ssa.FieldAddr)
+			k2, isK2 := st.Val.(*ssa.Const)
+			if !ok || !isK2 || k2.Value == nil || fa2.X != ssa.Value(e.recv) || fieldName(fa2.X.Type(), fa2.Field) != e.field {
+				return
+			}
+			if !(p.Block().Dominates(b) && (p.Block() != b || idxIn(p) < idxIn(st))) || b == p.Block() && false {
+				return
+			}
+			succeeded := perr == nil
+			for _, g := range guardsOf(b) {
+				if c2, ok := g.asCmp(); ok && perr != nil && c2.x == perr && c2.op == token.EQL && isNilConst(c2.y) {
+					succeeded = true
+				}
+			}
+			// the first such store on the success path, in the pull's own region (before the predicate is consulted)
+			if succeeded && !constant.Compare(k2.Value, token.EQL, e.done) {
+				for _, in2 := range b.Instrs {
+					if in2 == ssa.Instruction(st) {
+						break
+					}
+					if c3, isCall := in2.(*ssa.Call); isCall && !c3.Call.IsInvoke() && c3 != p {
+						if _, isB := c3.Call.Value.(*ssa.Builtin); !isB {
+							return // after the predicate's call: not the "parked" marker
+						}
+					}
+				}
+				e.has = k2.Value
+			}
+		})
+	}
+	stateEnumMemo[fn] = e
+	return e
 }
 
 func ruleGuardBeforePull(c *Ctx, r *R) {
@@ -377,6 +506,13 @@ func ruleStickyEnd(c *Ctx, r *R) {
 						return ss(2), true
 					}
 				}
+				if er := stateEnumOf(fn); er != nil {
+					if _, fld, ok := storedField(st.Addr); ok && fld == er.field {
+						if k, ok := st.Val.(*ssa.Const); ok && k.Value != nil && constant.Compare(k.Value, token.EQL, er.done) && q == 1 {
+							return ss(2), true
+						}
+					}
+				}
 			}
 			return 0, false
 		}
@@ -403,6 +539,9 @@ func ruleStickyEnd(c *Ctx, r *R) {
 				first = true
 			}
 		}
+		if stateEnumOf(fn) != nil {
+			first = true // the done state is, by its role, the one the entry test answers with an immediate return
+		}
 		r.ok(first, name+"|done-tested-first", fn.Pos(), "done must be the first thing Next looks at")
 		// only true is ever stored to done
 		onlyTrue := true
@@ -415,6 +554,41 @@ func ruleStickyEnd(c *Ctx, r *R) {
 				}
 			}
 		})
+		if er := stateEnumOf(fn); er != nil {
+			// leaving the done state: no store of another state where done is not ruled out, and nothing is stored after the
+			// done state was entered
+			instrs(fn, func(b *ssa.BasicBlock, i int, in ssa.Instruction) {
+				st, ok := in.(*ssa.Store)
+				if !ok {
+					return
+				}
+				if _, fld, ok := storedField(st.Addr); !ok || fld != er.field {
+					return
+				}
+				k, isK := st.Val.(*ssa.Const)
+				if !isK || k.Value == nil {
+					onlyTrue = false
+					return
+				}
+				if constant.Compare(k.Value, token.EQL, er.done) {
+					for _, b2 := range fn.Blocks {
+						for j, in2 := range b2.Instrs {
+							st2, ok := in2.(*ssa.Store)
+							if !ok || st2 == st {
+								continue
+							}
+							if _, f2, ok := storedField(st2.Addr); ok && f2 == er.field && ((b2 == b && j > i) || (b2 != b && reaches(b, b2)) || (b2 == b && reaches(b, b))) {
+								onlyTrue = false
+							}
+						}
+					}
+					return
+				}
+				if okG, _ := guardedByField(b, "done", token.NOT); !okG {
+					onlyTrue = false
+				}
+			})
+		}
 		r.ok(onlyTrue, name+"|done-never-cleared", fn.Pos(), "done may only ever be set")
 	}
 	for _, name := range []string{"iterator.firstIterator.Next", "stream.firstStream.Next", "iterator.repeatIterator.Next"} {
